@@ -20,6 +20,9 @@ type GateSpec struct {
 	Guards   []Guard
 	MustCall [][]string // each entry: alternative callee symbols, one of which must be passed
 	MinSites int        // minimal number of target sites (default 1)
+	// Arm restricts the check to one clause of the switch over Opcode constants (pkg/vm): the clause
+	// containing this constant; From = entries of the clause, guards and targets inside it.
+	Arm string
 }
 
 func symAssume(kv ...any) *Assume {
@@ -45,6 +48,39 @@ func runGates(c *Ctx, specs []GateSpec) {
 			continue
 		}
 		from := f.Entry()
+		var region ast.Node
+		if sp.Arm != "" {
+			for _, arms := range constSwitches(f.Info, f.Body, "pkg/vm/opcode", "Opcode") {
+				for _, a := range arms {
+					for _, cn := range a.Consts {
+						if cn == sp.Arm && len(arms) > 50 {
+							region = a.Clause
+						}
+					}
+				}
+			}
+			if region == nil {
+				c.Lost(base+".arm", fmt.Sprintf("%s: no arm for opcode %s in the dispatch switch", FuncKey(fd.Obj), sp.Arm))
+				continue
+			}
+			from = f.regionEntries(region)
+			if len(from) == 0 {
+				c.Lost(base+".arm", fmt.Sprintf("%s: arm of %s has no entry block", FuncKey(fd.Obj), sp.Arm))
+				continue
+			}
+		}
+		inRegion := func(ss []site) []site {
+			if region == nil {
+				return ss
+			}
+			var out []site
+			for _, s := range ss {
+				if containsNode(region, s.node) {
+					out = append(out, s)
+				}
+			}
+			return out
+		}
 		var targets map[*cfg.Block]bool
 		var tdesc string
 		var loopHead *cfg.Block
@@ -64,8 +100,22 @@ func runGates(c *Ctx, specs []GateSpec) {
 		}
 		switch {
 		case strings.HasPrefix(sp.Target, "call:"):
-			syms := strings.Split(strings.TrimPrefix(sp.Target, "call:"), "|")
-			sites := f.CallSites(syms...)
+			spec := strings.TrimPrefix(sp.Target, "call:")
+			mention := ""
+			if i := strings.Index(spec, "@"); i >= 0 {
+				spec, mention = spec[:i], spec[i+1:]
+			}
+			syms := strings.Split(spec, "|")
+			sites := inRegion(f.CallSites(syms...))
+			if mention != "" {
+				var keep []site
+				for _, s := range sites {
+					if f.Mentions(s.call, s.blk)[mention] {
+						keep = append(keep, s)
+					}
+				}
+				sites = keep
+			}
 			min := sp.MinSites
 			if min == 0 {
 				min = 1
@@ -76,6 +126,15 @@ func runGates(c *Ctx, specs []GateSpec) {
 			}
 			targets = blocksOf(sites)
 			tdesc = "call of " + strings.Join(syms, "|")
+		case strings.HasPrefix(sp.Target, "write:"):
+			fld := strings.TrimPrefix(sp.Target, "write:")
+			sites := inRegion(f.WriteSites(fld))
+			if len(sites) == 0 {
+				c.Lost(base+".target", fmt.Sprintf("%s: no write of %s", FuncKey(fd.Obj), fld))
+				continue
+			}
+			targets = blocksOf(sites)
+			tdesc = "write of " + fld
 		case sp.Target == "ok-return":
 			sites := f.OKReturns()
 			if len(sites) == 0 {
@@ -96,7 +155,7 @@ func runGates(c *Ctx, specs []GateSpec) {
 			continue
 		}
 		for _, g := range sp.Guards {
-			res := f.CheckGate(from, targets, g, sp.Assume)
+			res := f.CheckGateIn(region, from, targets, g, sp.Assume)
 			key := base + "." + g.ID
 			pos := c.P.Pos(fd.Decl.Pos())
 			if res.OK {
